@@ -136,6 +136,11 @@ def annotMonitor (p : Props) (bs : List Binding) : Option Clause :=
     else if bs.length != countBound p then some (.bindCount bs.length (countBound p))
     else none
 
+/-- A string, a boolean, or an integer within ±(2^53−1). -/
+def primSafeB : Prim → Bool
+  | .int n => -specMaxSafe ≤ n && n ≤ specMaxSafe
+  | _ => true
+
 /-- One `Mcp-Param-*` binding mirrors the body (the documented requirement): absent/null argument ⇒ no header;
 otherwise the argument is a string, a boolean or an integer within ±(2^53−1) and the (decoded) header equals it;
 the empty string may travel as an empty/absent header. -/
@@ -148,8 +153,7 @@ def bindingMirrors (c : B64) (a : Args) (h : ParamHdrs) (b : Binding) : Bool :=
     match unmarshalPrimitive v with
     | none => false
     | some p =>
-      let safe := match p with | .int n => -specMaxSafe ≤ n && n ≤ specMaxSafe | _ => true
-      safe && (if hv == [] then p == .str [] else
+      primSafeB p && (if hv == [] then p == .str [] else
         match decodeHeaderValue c hv with
         | none => false
         | some d => primitiveEqual d p)
@@ -159,8 +163,7 @@ def argsValidB (p : Props) (a : Args) : Bool :=
   (bindings p).all (fun b => match a.lookup b.path with
     | none => true | some .null => true
     | some v => match unmarshalPrimitive v with
-      | some (.int n) => -specMaxSafe ≤ n && n ≤ specMaxSafe
-      | some _ => true
+      | some pr => primSafeB pr
       | none => false)
 
 /-- The tool is one the property speaks about: distinct property names per map, annotations that pass the SDK's validation. -/
@@ -200,10 +203,15 @@ def f6Like (c : B64) (p : Props) (a : Args) (h : ParamHdrs) : Bool :=
     | some v => unmarshalPrimitive v == some (.str []) | none => false)) &&
   (bindings p).all (bindingMirrors c a h)
 
+/-- The mirror requirement on a whole header set: every binding mirrors (arguments that do not decode are the
+dispatcher's business). -/
+def vphSpec (c : B64) (p : Props) (a : Args) (h : ParamHdrs) : Bool :=
+  match a with | .bad => true | _ => (bindings p).all (bindingMirrors c a h)
+
 /-- `vph` (server side of the mirror): `validateParamHeaders` accepts iff every binding mirrors the body.  `au`, `rep`:
 the arguments as the pinned tree decoded them (repeated `arguments` members merged) and whether the two can differ. -/
 def vphMonitor (c : B64) (p : Props) (a au : Args) (rep : Bool) (h : ParamHdrs) (impl : VphObs) : Option Clause :=
-  let spec := match a with | .bad => true | _ => (bindings p).all (bindingMirrors c a h)
+  let spec := vphSpec c p a h
   if rep && impl != vphModel c p a h && impl == vphModel c p au h then some .f31
   else if (impl == .ok) == spec then none
   else if impl != .ok && f6Like c p a h then some .vphF6
